@@ -21,7 +21,7 @@ for i in ids:
          "replay_cmd_template": "tools/check %s --replay {path}" % i,
          "engine": "mc",
          "level_claimed": {"category": P["level"], "text": P.get("claim", P["rule"]), "design_ref": "DESIGN.md section 3, " + i},
-         "level_note": P.get("note", "Trusted base: the reference model and oracle code in the harness, clang-14 ASan/UBSan, the enumeration engine (engine/mc.c). Bounds: quick %s; thorough %s." % (P.get("bounds", {}).get("quick", "?"), P.get("bounds", {}).get("thorough", "?"))),
+         "level_note": P.get("note", "Trusted base: the reference model and oracle code in the harness, clang-14 ASan/UBSan/MSan, the enumeration engine (engine/mc.c). Bounds: quick %s; thorough %s." % (P.get("bounds", {}).get("quick", "?"), P.get("bounds", {}).get("thorough", "?"))),
          "technique": P["technique"]}
     checks.append(c)
 m = {"version": 1,
@@ -31,7 +31,7 @@ m = {"version": 1,
                "baseline_off_cmd": "make -C /repo && make -C /repo/test test",
                "source_commits": [], "add_only": True},
      "engines": [{"name": "mc", "path": "engine/mc.c", "serves_properties": [c["property_id"] for c in checks],
-                  "kind_free_text": "hand-written bounded exhaustive explorer on the real code: E1 BFS over operation histories with canonical-key dedup and replay-on-fresh-object, E2 exhaustive input-language enumeration, E3 deviation-bounded environment-answer schedules; forked workers, ASan/UBSan/signal recovery shell"}],
+                  "kind_free_text": "hand-written bounded exhaustive explorer on the real code: E1 BFS over operation histories with canonical-key dedup and replay-on-fresh-object, E2 exhaustive input-language enumeration, E3 deviation-bounded environment-answer schedules; forked workers with heartbeat supervision, a stale errno at the start of every case, ASan/UBSan/MSan report capture and signal recovery shell"}],
      "checks": checks,
      "notes": "All checks rebuild the library objects they need from /repo's working tree into /verif/build (content-hashed cache). Exit 0 = held on everything explored, 1 = VIOLATION line printed, 2 = harness/build error.",
      "not_applicable": na}
